@@ -959,6 +959,59 @@ def date_cache_witness(chk: C.Check) -> None:
         chk.notes.append("date lru_cache witness no longer reproduces: " + repr(out))
 
 
+def correspond_retry(chk: C.Check, tag: str, imports: str, defs_: str, items: list[dict[str, Any]], *,
+                     what: str, shard: int) -> None:
+    """C.correspond, except that shards whose coqc process died without output
+    (the OOM killer on a loaded machine) are evaluated again, up to twice,
+    before anything is reported.  Reporting is the same as C.correspond."""
+    import json
+    import re as _re
+    import time as _time
+    t0 = _time.time()
+    cases = [it["case"] for it in items]
+    todo = list(range(len(cases)))
+    bad: list[int] = []
+    errors: list[str] = []
+    for attempt in range(3):
+        rc = C.run_cases(f"{tag}_{attempt}" if attempt else tag, imports, defs_, [cases[i] for i in todo], shard=shard)
+        bad += [todo[j] for j in rc["bad"]]
+        errors = rc["errors"]
+        if not errors:
+            todo = []
+            break
+        failed: list[int] = []
+        for e in errors:
+            m = _re.match(r"s(\d+)\.v", e)
+            if m:
+                k = int(m.group(1))
+                failed += todo[k * shard:(k + 1) * shard]
+        if not failed or any(e.split(":", 1)[1].strip() for e in errors if ":" in e):
+            break   # a real Coq error message: not transient
+        chk.notes.append(f"{what}: {len(errors)} coqc shard(s) died without output (attempt {attempt + 1}); re-running {len(failed)} cases")
+        todo = failed
+    for e in errors:
+        chk.notes.append("coq case error: " + e[:400])
+    bad = sorted(set(bad))
+    if bad:
+        idx = bad[:3]
+        outs = C.eval_terms(tag, imports, defs_, [items[i]["model"] for i in idx])
+        for i, o in zip(idx, outs):
+            chk.notes.append(f"{what}: model/implementation disagree on case #{i}: "
+                             f"{json.dumps(items[i]['replay'], default=str)[:300]} model={o[:300]}")
+        if not chk.violations:
+            i, o = idx[0], outs[0]
+            chk.finding("correspondence:" + what,
+                        f"model and implementation disagree ({len(bad)} of {len(cases)} cases); no direct property failure found",
+                        {"case": items[i]["replay"], "model": o, "broken": f"correspondence {what}",
+                         "disagreeing_cases": bad[:50]}, no_input=True)
+    elif errors and not chk.violations:
+        chk.finding("correspondence:" + what + ":build", "generated case files did not evaluate",
+                    {"errors": errors[:3], "broken": f"correspondence {what} (coqc on generated cases)"}, no_input=True)
+    chk.coverage["model_cases"] = chk.coverage.get("model_cases", 0) + len(cases) - (len(todo) if errors else 0)
+    chk.coverage["model_disagreements"] = chk.coverage.get("model_disagreements", 0) + len(bad)
+    chk.coverage.setdefault("correspondence_wall_s", {})[what] = round(_time.time() - t0, 1)
+
+
 def main(chk: C.Check, build: C.Build) -> None:
     warnings.simplefilter("ignore")
     proofs_ok = C.proof_stage(chk, build, NEEDED)
@@ -974,7 +1027,7 @@ def main(chk: C.Check, build: C.Build) -> None:
     date_cache_witness(chk)
 
     shard = max(100, min(400, -(-len(ex["items"]) // C.JOBS)))   # one wave of coqc processes when possible
-    C.correspond(chk, "c04", IMPORTS, defs(), ex["items"], what="Markup.eval_chain/output", shard=shard)
+    correspond_retry(chk, "c04", IMPORTS, defs(), ex["items"], what="Markup.eval_chain/output", shard=shard)
     chk.coverage["code_version"] = code_version()
     C.proofs_verdict(chk, proofs_ok)
 
